@@ -5,6 +5,9 @@ A patch that still applies to /repo's HEAD is applied there (git -C /repo apply 
 A patch that has gone stale because /repo moved on (a later `fix:` commit touched the same lines) is evaluated in a
 scratch worktree of the commit it was confirmed against (checks run with VERIF_REPO pointing at it); violations that
 the clean tree of that commit already reports are subtracted."""
+import os as _os, sys as _sys
+if _sys.version_info[:2] != (3, 12) and _os.path.exists("/venv/bin/python"):
+    _os.execv("/venv/bin/python", ["/venv/bin/python"] + _sys.argv)      # same interpreter as ./check (ast.unparse differs between versions)
 import json, os, subprocess, sys
 from concurrent.futures import ThreadPoolExecutor
 os.chdir("/verif")
